@@ -118,6 +118,8 @@ let run (path : String.t) =
         let was_closed = List.exists (function VClose _ -> true | _ -> false) evs in
         if fin = "quiesce" && not was_closed && not (obs_replies_delivered evs) then (add "c02"; add "c09"; why := "replies_delivered" :: !why);
         if not was_closed && not (obs_c10_final_ok evs) then (add "c10"; add "c09"; why := "c10_final" :: !why);
+        if fin = "quiesce" && not was_closed && not (obs_requests_flushed evs) then (add "c02"; add "c09"; why := "requests_flushed" :: !why);
+        if fin = "quiesce" && not was_closed && not (obs_no_request_stranded evs) then (add "c02"; add "c08"; add "c11"; why := "request_stranded" :: !why);
         if fin = "close" && not (rcompleted evs) then (add "c16"; add "c09"; why := "not_completed" :: !why)
       end;
       let g = st.rgh in
